@@ -479,6 +479,11 @@ def iter_scenarios(shapes, L):
                 src = ITERMUT_SOURCES[k % len(ITERMUT_SOURCES)]
                 st = "".join(c + "L" for c in steps)
                 out.append(Scenario(sh, [setup(n), f"itermut r0 {src} {st}", "len r0"], "itermut"))
+            # the reversed iterators (`.rev()` on the concrete type), stepped from both of their ends
+            for steps in itertools.product("FB", repeat=min(n + 1, 4)):
+                st = "".join(c + "L" for c in steps)
+                out.append(Scenario(sh, [setup(n), f"iter r0 vec.iter.rev {st}", f"iter r0 slice.iter.rev {st}"], "iter-rev"))
+                out.append(Scenario(sh, [setup(n), f"itermut r0 {'vec.iter_mut.rev' if len(out) % 2 else 'slicemut.iter_mut.rev'} {st}", "len r0"], "itermut-rev"))
             # internal iteration that consumes the iterator (fold, rfold, rev().for_each) after a few plain steps
             for j, (pre, term) in enumerate(itertools.product(("", "F", "B", "FB", "BF", "N"), "XYVW")):
                 out.append(Scenario(sh, [setup(n), f"iter r0 {ITER_SOURCES[j % len(ITER_SOURCES)]} {pre}{term}", f"iter r0 {ITER_SOURCES[(j + 3) % len(ITER_SOURCES)]} {pre}L{term}"], "iter-fold"))
